@@ -623,7 +623,7 @@ func (e *Exec) initElems(st *State, el types.Type, base Term) {
 func (e *Exec) storeWithHooks(st *State, p *Place, v Value, pos token.Pos) {
 	e.lockCheckAccess(st, p, true, pos)
 	if p.Kind == PField {
-		if pre, _ := placePrefix(p); immutableGhost(pre) && !(st.fresh[p.Base.S] && !st.published[p.Base.S]) && e.disc == nil {
+		if pre, _ := placePrefix(p); immutableGhost(pre) && !st.fresh[p.Base.S] && e.disc == nil {
 			if !(e.top != nil && e.top.contract != nil && e.top.contract.Attrs["constructs"] != "" && e.top.params[e.top.contract.Attrs["constructs"]].L != nil && e.top.params[e.top.contract.Attrs["constructs"]].L[0].S == p.Base.S) {
 				what := e.eng.srcText(pos)
 				e.oblige(st, "immutable", pre+":"+what, False, pos, nil, "store to "+pre+", which is declared immutable after construction")
